@@ -435,9 +435,11 @@ def posit_input(src, bits_msb_first, negative, tykey=None, pad=0):
 
 class Fmt:
     """a posit format by (bits, es) for the generic-width types"""
-    def __init__(self, name, bits, es, tykey=None):
+    def __init__(self, name, bits, es, tykey=None, pad=0, gargs=None):
         self.name, self.bits, self.es, self.tykey = name, bits, es, tykey
         self.posit = S.Posit(bits, es)
+        self.pad = pad
+        self.gargs = gargs or {}
 
 
 def check_posit_to_posit(ctx, prog, rule, label, path, src, dst, full, gargs=None, src_tykey=None, seed=1, src_pad=0, dst_pad=0, cell_label=''):
@@ -1094,9 +1096,14 @@ def check_add(ctx, prog, rule, label, path, pty, full, scales=None, swap=False, 
     P = pty.posit
     n = pty.bits
 
+    pad = getattr(pty, 'pad', 0)
+    gargs = getattr(pty, 'gargs', None) or {}
+
     def const_arg(u):
-        sv = u - (1 << n) if u >> (n - 1) else u
-        return AAgg(pty.tykey, [AInt.const(n, True, sv)])
+        u = (u & mask(n)) << pad
+        w_ = n + pad
+        sv = u - (1 << w_) if u >> (w_ - 1) else u
+        return AAgg(pty.tykey, [AInt.const(w_, True, sv)])
 
     def mkc(a_enc, bits):
         def concrete(asg):
@@ -1106,7 +1113,7 @@ def check_add(ctx, prog, rule, label, path, pty, full, scales=None, swap=False, 
             ua, ub = (((-a_enc) & mask(n)), ((-u) & mask(n))) if negative else (a_enc, u)
             va, vb = P.decode(ua), P.decode(ub)
             args = [const_arg(ub), const_arg(ua)] if swap else [const_arg(ua), const_arg(ub)]
-            return args, '%#x + %#x (%s + %s)' % ((ub, ua, float(vb), float(va)) if swap else (ua, ub, float(va), float(vb))), P.encode((va + vb) if op == 'add' else ((vb - va) if swap else (va - vb))), lambda a: I.run(path, a, {})
+            return args, '%#x + %#x (%s + %s)' % ((ub, ua, float(vb), float(va)) if swap else (ua, ub, float(va), float(vb))), P.encode((va + vb) if op == 'add' else ((vb - va) if swap else (va - vb))) << pad, lambda a: I.run(path, a, gargs)
         return concrete
     for cname, a_enc, bits, want in add_cells(pty, full, scales, op=op):
         fa_ = {}
@@ -1119,7 +1126,7 @@ def check_add(ctx, prog, rule, label, path, pty, full, scales=None, swap=False, 
         aa = (-a_enc) & mask(n) if negative else a_enc
 
         def mk(bits=bits, aa=aa):
-            bv = posit_input(pty, bits, negative)
+            bv = posit_input(pty, bits, negative, pty.tykey, pad)
             return [bv, const_arg(aa)] if swap else [const_arg(aa), bv]
 
         def subs(bits=bits, want=want, aa=aa, a_enc=a_enc):
@@ -1127,11 +1134,11 @@ def check_add(ctx, prog, rule, label, path, pty, full, scales=None, swap=False, 
                 b2 = subst(bits, a2)
 
                 def mk2(b2=b2, aa=aa):
-                    bv = posit_input(pty, b2, negative)
+                    bv = posit_input(pty, b2, negative, pty.tykey, pad)
                     return [bv, const_arg(aa)] if swap else [const_arg(aa), bv]
-                yield sub, mk2, [0] + subst(want, a2), mkc(a_enc, b2)
+                yield sub, mk2, [0] + subst(want, a2) + [0] * pad, mkc(a_enc, b2)
         res_neg = negative ^ (op == 'sub' and swap)
-        decide(ctx, I, rule, label, ('-' if negative else '+') + cname, path, mk, {}, res_neg, [0] + want, mkc(a_enc, bits), stats, subs)
+        decide(ctx, I, rule, label, ('-' if negative else '+') + cname, path, mk, gargs, res_neg, [0] + want + [0] * pad, mkc(a_enc, bits), stats, subs)
     for k_, v in stats.items():
         ctx.count('opcells_%s' % k_, v)
     return stats
@@ -1198,10 +1205,14 @@ def check_fma(ctx, prog, rule, label, path, pty, fname, variant, full, scales=No
     if P.decode(pw_enc) != Fraction(2) ** t:
         return stats
 
+    pad = getattr(pty, 'pad', 0)
+    gargs = getattr(pty, 'gargs', None) or {}
+
     def const_arg(u):
-        u &= mask(n)
-        sv = u - (1 << n) if u >> (n - 1) else u
-        return AAgg(pty.tykey, [AInt.const(n, True, sv)])
+        u = (u & mask(n)) << pad
+        w_ = n + pad
+        sv = u - (1 << w_) if u >> (w_ - 1) else u
+        return AAgg(pty.tykey, [AInt.const(w_, True, sv)])
 
     def args_for(c_enc, bval_pos, bval_neg):
         raw = build(c_enc, bval_pos, bval_neg, pw_enc)
@@ -1225,8 +1236,8 @@ def check_fma(ctx, prog, rule, label, path, pty, fname, variant, full, scales=No
             for b in bits:
                 u = (u << 1) | (asg.get(b[2], asg.get('*', 0)) if is_lit(b) else b)
             args = args_for(c_enc, const_arg(u), const_arg(-u))
-            vals = [P.decode(result_int(a).uval()) for a in args]
-            return args, '%s(%s)' % (fname, ', '.join('%#x' % result_int(a).uval() for a in args)), P.encode(real(fname, vals)), lambda a: I.run(path, a, {})
+            vals = [P.decode(result_int(a).uval() >> pad) for a in args]
+            return args, '%s(%s)' % (fname, ', '.join('%#x' % result_int(a).uval() for a in args)), P.encode(real(fname, vals)) << pad, lambda a: I.run(path, a, gargs)
         return concrete
     for cname, c_enc, bits, want in add_cells(pty, full, scales, op=family, t=t):
         fa_ = {}
@@ -1239,13 +1250,13 @@ def check_fma(ctx, prog, rule, label, path, pty, fname, variant, full, scales=No
         assert P.encode((P.decode(c_enc) + pv) if family == 'add' else (P.decode(c_enc) - pv)) == instantiate(want, fa_), ('oracle mismatch', label, cname)
 
         def mk(bits=bits, c_enc=c_enc):
-            return args_for(c_enc, posit_input(pty, bits, False), posit_input(pty, bits, True))
+            return args_for(c_enc, posit_input(pty, bits, False, pty.tykey, pad), posit_input(pty, bits, True, pty.tykey, pad))
 
         def subs(bits=bits, want=want, c_enc=c_enc):
             for a2, sub in refine_cells(list(reversed(bits)), want):
                 b2 = subst(bits, a2)
-                yield sub, (lambda b2=b2, c_enc=c_enc: args_for(c_enc, posit_input(pty, b2, False), posit_input(pty, b2, True))), [0] + subst(want, a2), mkc(c_enc, b2)
-        decide(ctx, I, rule, label, 't=%d v%d %s' % (t, variant, cname), path, mk, {}, res_neg, [0] + want, mkc(c_enc, bits), stats, subs)
+                yield sub, (lambda b2=b2, c_enc=c_enc: args_for(c_enc, posit_input(pty, b2, False, pty.tykey, pad), posit_input(pty, b2, True, pty.tykey, pad))), [0] + subst(want, a2) + [0] * pad, mkc(c_enc, b2)
+        decide(ctx, I, rule, label, 't=%d v%d %s' % (t, variant, cname), path, mk, gargs, res_neg, [0] + want + [0] * pad, mkc(c_enc, bits), stats, subs)
     return stats
 
 
@@ -1262,10 +1273,14 @@ def check_mul_pow2(ctx, prog, rule, label, path, pty, opn, order, full, ts, seed
     n, es = pty.bits, pty.es
     nk = n - 1
 
+    pad = getattr(pty, 'pad', 0)
+    gargs = getattr(pty, 'gargs', None) or {}
+
     def const_arg(u):
-        u &= mask(n)
-        sv = u - (1 << n) if u >> (n - 1) else u
-        return AAgg(pty.tykey, [AInt.const(n, True, sv)])
+        u = (u & mask(n)) << pad
+        w_ = n + pad
+        sv = u - (1 << w_) if u >> (w_ - 1) else u
+        return AAgg(pty.tykey, [AInt.const(w_, True, sv)])
     for t in ts:
         pw = Fraction(2) ** t
         pw_enc = P.encode(pw)
@@ -1282,7 +1297,7 @@ def check_mul_pow2(ctx, prog, rule, label, path, pty, opn, order, full, ts, seed
                     u = (-u) & mask(n)
                 v = P.decode(u)
                 args = [const_arg(u), const_arg(pw_enc)] if order == 'bc' else [const_arg(pw_enc), const_arg(u)]
-                return args, '%#x %s 2^%d' % (u, '*' if opn == 'mul' else '/', t), P.encode(v * pw if opn == 'mul' else v / pw), lambda a: I.run(path, a, {})
+                return args, '%#x %s 2^%d' % (u, '*' if opn == 'mul' else '/', t), P.encode(v * pw if opn == 'mul' else v / pw) << pad, lambda a: I.run(path, a, gargs)
             return concrete
         for negative in (False, True):
             for k, e, fl, known in regime_cells(n, es):
@@ -1305,7 +1320,7 @@ def check_mul_pow2(ctx, prog, rule, label, path, pty, opn, order, full, ts, seed
                     assert P.encode(v * pw if opn == 'mul' else v / pw) == instantiate(want, fa), ('oracle mismatch', label, cn)
 
                     def mk(bits=bits, negative=negative):
-                        bv = posit_input(pty, bits, negative)
+                        bv = posit_input(pty, bits, negative, pty.tykey, pad)
                         return [bv, const_arg(pw_enc)] if order == 'bc' else [const_arg(pw_enc), bv]
 
                     def subs(bits=bits, want=want, negative=negative):
@@ -1313,10 +1328,10 @@ def check_mul_pow2(ctx, prog, rule, label, path, pty, opn, order, full, ts, seed
                             b2 = subst(bits, a2)
 
                             def mk2(b2=b2, negative=negative):
-                                bv = posit_input(pty, b2, negative)
+                                bv = posit_input(pty, b2, negative, pty.tykey, pad)
                                 return [bv, const_arg(pw_enc)] if order == 'bc' else [const_arg(pw_enc), bv]
-                            yield sub, mk2, [0] + subst(want, a2), mkc(b2, negative)
-                    decide(ctx, I, rule, label, cn, path, mk, {}, negative, [0] + want, mkc(bits, negative), stats, subs)
+                            yield sub, mk2, [0] + subst(want, a2) + [0] * pad, mkc(b2, negative)
+                    decide(ctx, I, rule, label, cn, path, mk, gargs, negative, [0] + want + [0] * pad, mkc(bits, negative), stats, subs)
     return stats
 
 
